@@ -240,6 +240,11 @@ func (p *parser) parseExpression(precedence int) ast.Expression {
 	}
 
 	leftExp := prefix()
+	if leftExp == nil {
+		// the prefix function reported the problem (or there is nothing to parse):
+		// there is no left operand an infix operator could apply to
+		return nil
+	}
 
 	for !p.peekTokenIs(token.SEMICOLON) && precedence < p.peekPrecedence() {
 		infix := p.infixParseFns[p.peekToken.Type]
@@ -249,6 +254,9 @@ func (p *parser) parseExpression(precedence int) ast.Expression {
 
 		p.nextToken()
 		leftExp = infix(leftExp)
+		if leftExp == nil {
+			return nil
+		}
 	}
 
 	return leftExp
